@@ -38,6 +38,10 @@ structure Tables where
   exeVarTypeOptional : Bool
   opFallbackAnyName : Bool
   nullVarUsesDefault : Bool
+  descRaw : Bool
+  dirArgWrapperAccepted : Bool
+  dupScalarDropped : Bool
+  subtypeNarrow : Bool
   argCountCheckOnly : Bool
   listNotCoerced : Bool
   symbolUnchecked : Bool
